@@ -48,6 +48,19 @@ fn model(v6: bool, lods: u8, meshes: &[MeshSpec], meshes_per_lod: u16, shapes: b
     model_with_names(v6, lods, meshes, meshes_per_lod, shapes, 0, 0, rng)
 }
 
+thread_local! {
+    /// first index of the first mesh (`start_index`) of the models built while it is set: a mesh
+    /// that starts beyond the 16-bit range of the shape values' index field
+    static INDEX_BASE: std::cell::Cell<u32> = std::cell::Cell::new(0);
+}
+
+fn model_at(index_base: u32, v6: bool, lods: u8, meshes: &[MeshSpec], meshes_per_lod: u16, rng: &mut Rng) -> Seed {
+    INDEX_BASE.with(|c| c.set(index_base));
+    let s = model(v6, lods, meshes, meshes_per_lod, true, rng);
+    INDEX_BASE.with(|c| c.set(0));
+    s
+}
+
 /// `filler` extra bytes of one long name at the end of the string block, `extra_materials`
 /// material names that all point at it
 fn model_with_names(
@@ -60,6 +73,7 @@ fn model_with_names(
     extra_materials: u16,
     rng: &mut Rng,
 ) -> Seed {
+    let index_base = INDEX_BASE.with(|c| c.get());
     let mut b = B::new(false);
     let nm = meshes.len() as u16;
     let base: &[u8] = b"j_kosi\0/mt_a.mtrl\0atr_x\0shp_a\0\0\0";
@@ -113,7 +127,7 @@ fn model_with_names(
     // meshes
     let mut p_mesh_vb = vec![];
     let mut sub_at = 0u16;
-    let mut start_index = 0u32;
+    let mut start_index = index_base;
     for m in meshes {
         b.u16(m.vertex_count).zeros(2).u32(m.index_count).u16(0).u16(sub_at).u16(m.submeshes).u16(0).u32(start_index);
         p_mesh_vb.push(b.pos());
@@ -150,7 +164,7 @@ fn model_with_names(
     b.bound();
     if shapes {
         b.u32(24).u16(0).u16(0).u16(0).u16(1).u16(0).u16(0); // shape "shp_a"
-        b.u32(0).u32(2).u32(0); // shape mesh: mesh with start_index 0, two values from 0
+        b.u32(index_base).u32(2).u32(0); // shape mesh: the first mesh (by its start index), two values from 0
         b.u16(1).u16(2).u16(0).u16(1); // shape values
         b.bound();
     }
@@ -191,7 +205,7 @@ fn model_with_names(
         b.bound();
         let istart = b.pos() as u32;
         // indices of all meshes of the model are addressed from the lod's index offset by start_index
-        let total: u32 = meshes.iter().map(|m| m.index_count).sum();
+        let total: u32 = index_base + meshes.iter().map(|m| m.index_count).sum::<u32>();
         for i in 0..total {
             b.v.extend_from_slice(&((i % 3) as u16).to_le_bytes());
         }
@@ -244,6 +258,8 @@ pub fn mdl_seeds(rng: &mut Rng) -> Vec<Seed> {
         model(false, 1, &[mesh_a(), mesh_b()], 2, true, rng),
         model(true, 2, &[mesh_c(), mesh_b()], 1, false, rng),
         model(true, 3, &[mesh_c(), mesh_a(), mesh_b()], 1, true, rng),
+        // the shaped mesh starts at index 65536 of its level of detail
+        model_at(65536, false, 1, &[mesh_a(), mesh_b()], 2, rng),
     ]
 }
 
